@@ -954,7 +954,18 @@ const ALL_KINDS_T: &str = "ASAP2_VERSION 1 71 /begin PROJECT p \"\" /begin MODUL
 /begin AXIS_PTS @apb \"\" 0 NO_INPUT_QUANTITY rl 0 NO_COMPU_METHOD 2 0 255 /end AXIS_PTS /begin AXIS_PTS @apa \"\" 0 NO_INPUT_QUANTITY rl 0 NO_COMPU_METHOD 2 0 255 /end AXIS_PTS
 /begin MEASUREMENT @msb \"\" UBYTE NO_COMPU_METHOD 0 0 0 255 /end MEASUREMENT /begin MEASUREMENT @msa \"\" UBYTE NO_COMPU_METHOD 0 0 0 255 /end MEASUREMENT
 /begin CHARACTERISTIC @chb \"\" VALUE 0 rl 0 NO_COMPU_METHOD 0 255 /end CHARACTERISTIC /begin CHARACTERISTIC @cha \"\" VALUE 0 rl 0 NO_COMPU_METHOD 0 255 /end CHARACTERISTIC
+/begin VARIANT_CODING /end VARIANT_CODING
+/begin USER_RIGHTS ub /end USER_RIGHTS /begin USER_RIGHTS uc /end USER_RIGHTS /begin USER_RIGHTS ua /end USER_RIGHTS
+/begin A2ML block \"IF_DATA\" taggedunion { \"XA\" uint; \"XB\" uint; };
+/end A2ML
+/begin IF_DATA XA 1 /end IF_DATA /begin IF_DATA XB 2 /end IF_DATA
+/begin MOD_PAR \"\" /end MOD_PAR
+/begin MOD_COMMON \"\" /end MOD_COMMON
 /end MODULE /end PROJECT";
+
+const SORTED_KIND_ORDER: [&str; 26] = ["A2ML", "MOD_COMMON", "MOD_PAR", "IF_DATA", "CHARACTERISTIC", "MEASUREMENT", "AXIS_PTS", "INSTANCE", "BLOB",
+    "COMPU_METHOD", "COMPU_TAB", "COMPU_VTAB", "COMPU_VTAB_RANGE", "TYPEDEF_STRUCTURE", "TYPEDEF_CHARACTERISTIC", "TYPEDEF_MEASUREMENT", "TYPEDEF_AXIS",
+    "TYPEDEF_BLOB", "FRAME", "FUNCTION", "GROUP", "RECORD_LAYOUT", "TRANSFORMER", "UNIT", "USER_RIGHTS", "VARIANT_CODING"];
 
 fn tag_of(line: &str) -> Option<(String, String)> {
     // "/begin KIND name ..." at the start of a line of the written text -> (KIND, name)
@@ -1005,7 +1016,20 @@ pub(crate) fn h_sort_all_kinds() {
             last_name = name;
         }
     }
-    vrt_check(n_blocks == 40 && kinds_seen.len() == 20, "C14 the written file contains every element of every kind");
+    vrt_check(n_blocks == 49 && kinds_seen.len() == 26, "C14 the written file contains every element of every kind");
+    {
+        let m = &file.project.module[0];
+        let b = &before.project.module[0];
+        vrt_check(m.user_rights.len() == 3 && m.if_data.len() == 2 && m.a2ml == b.a2ml && m.mod_common == b.mod_common && m.mod_par == b.mod_par && m.variant_coding == b.variant_coding,
+            "C14 unnamed lists and optional blocks hold the same elements after sort()");
+        for e in b.user_rights.iter() { vrt_check(m.user_rights.iter().any(|x| x == e), "C14 USER_RIGHTS content unchanged by sort"); }
+        vrt_check(m.if_data == b.if_data, "C14 IF_DATA blocks unchanged by sort");
+        vrt_check(m.user_rights[0].user_level_id == "ua" && m.user_rights[1].user_level_id == "ub" && m.user_rights[2].user_level_id == "uc", "C14 USER_RIGHTS are ordered by user level id");
+    }
+    // the grouping follows the order documented in sort(): information blocks first, USER_RIGHTS and VARIANT_CODING last
+    let mut order_ok = kinds_seen.len() == SORTED_KIND_ORDER.len();
+    if order_ok { for i in 0..kinds_seen.len() { if kinds_seen[i] != SORTED_KIND_ORDER[i] { order_ok = false; } } }
+    vrt_check(order_ok, "C14 the written file lists the kinds in the order documented in sort()");
     let (reloaded, _) = load_from_string(&out, None, false).unwrap();
     vrt_check(reloaded == file, "C14 loading the sorted output yields the same model in the same order");
     let out2 = reloaded.write_to_string();
@@ -1013,6 +1037,17 @@ pub(crate) fn h_sort_all_kinds() {
     let once = file.clone();
     file.sort();
     vrt_check(file == once && file.write_to_string() == out, "C14 sorting a second time changes nothing");
+}
+
+/// twin of known finding D21: an A2ML block that follows an IF_DATA block in the source. sort() moves A2ML to the front
+/// ("to allow following IF_DATA to be parsed"), so the reloaded file interprets the IF_DATA that was uninterpreted before.
+pub(crate) fn h_sort_a2ml_after_ifdata_known_d21() {
+    let t = "ASAP2_VERSION 1 71\n/begin PROJECT p \"\"\n/begin MODULE m \"\"\n/begin IF_DATA XA 1\n/end IF_DATA\n/begin A2ML\nblock \"IF_DATA\" taggedunion { \"XA\" uint; };\n/end A2ML\n/end MODULE\n/end PROJECT";
+    let (mut file, _) = load_from_string(t, None, false).unwrap();
+    file.sort();
+    let out = file.write_to_string();
+    let (reloaded, _) = load_from_string(&out, None, false).unwrap();
+    vrt_check(reloaded == file, "C14 D21 loading the sorted output yields the same model (A2ML after IF_DATA in the source)");
 }
 
 // ------------------------------------------------------------------ C18 / C01 / C02: IF_DATA interpreted as the A2ML says; pass-through of uninterpreted data
